@@ -1,13 +1,54 @@
 /-
-Oracle ops for the `fmt` family.  Owned by the slice that models it; see AGENT_GUIDE.md.
+Oracle ops for the `fmt` family (C12).
+
+  fmt compact <hex>                                   → "ok <hex>" | "E"      model of Value.Compact()
+  fmt indent <prefixhex> <indenthex> <hex>            → "ok <hex>" | "E"      model of Value.Indent(WithIndentPrefix, WithIndent)
+  fmt render <m><c><k> <prefixhex> <indenthex> <hex>  → "ok <hex>" | "E"      m=Multiline c=SpaceAfterColon k=SpaceAfterComma (0/1)
+  fmt tokens <hex>                                    → "ok" {" {"|" }"|" ["|" ]"|" s<hex>"|" d<hex>"|" n"|" t"|" f"} | "E"
 -/
 import JsonV.Oracle.Util
+import JsonV.Model.Format
 
 namespace JsonV.Oracle.Fmt
-open JsonV JsonV.Oracle
+open JsonV JsonV.Oracle JsonV.Fmt
+
+def showRes : Option Bytes → String
+  | some b => "ok " ++ hexOfBytes b
+  | none => "E"
+
+def showTok : Tok → String
+  | .bo => " {" | .eo => " }" | .ba => " [" | .ea => " ]"
+  | .str raw => " s" ++ hexOfBytes raw
+  | .num raw => " d" ++ hexOfBytes raw
+  | .null => " n" | .tru => " t" | .fls => " f"
+
+def flag (c : Char) : Option Bool :=
+  if c == '1' then some true else if c == '0' then some false else none
 
 def handle (op : String) (args : List String) : String :=
   match op, args with
-  | _, _ => "ERR unimplemented"
+  | "compact", [h] =>
+    match bytesOfHex h with
+    | some b => showRes (compact b)
+    | none => badArgs
+  | "indent", [p, i, h] =>
+    match bytesOfHex p, bytesOfHex i, bytesOfHex h with
+    | some p, some i, some b => showRes (indent p i b)
+    | _, _, _ => badArgs
+  | "render", [f, p, i, h] =>
+    match f.toList, bytesOfHex p, bytesOfHex i, bytesOfHex h with
+    | [m, c, k], some p, some i, some b =>
+      match flag m, flag c, flag k with
+      | some m, some c, some k => showRes (format ⟨p, i, m, c, k⟩ b)
+      | _, _, _ => badArgs
+    | _, _, _, _ => badArgs
+  | "tokens", [h] =>
+    match bytesOfHex h with
+    | some b =>
+      match tokenize b with
+      | some ts => ts.foldl (fun acc t => acc ++ showTok t) "ok"
+      | none => "E"
+    | none => badArgs
+  | _, _ => badArgs
 
 end JsonV.Oracle.Fmt
